@@ -2,7 +2,7 @@
    version never decreases, and a non-factory that has migrated once stays at the code
    version (added round 8). *)
 From Coq Require Import String List ZArith Lia.
-From LP Require Import Semver Migrate SemverProofs MigrateProofs.
+From LP Require Import Semver Migrate Consts SemverProofs MigrateProofs.
 Import ListNotations.
 Local Open Scope N_scope.
 
@@ -74,4 +74,36 @@ Proof.
     all: assert (kind_of c <> KFactory) as NF by (rewrite K; discriminate);
          destruct (post_version_nonfactory c _ _ _ _ _ NF M) as [P _]; right; exact P. }
   destruct (IH (mig_step c st a)) as [E|E]; destruct S as [S|S]; rewrite E; auto.
+Qed.
+
+(* at the contract's own name and the code version every further attempt leaves the state
+   exactly as it is (minters answer Ok without writing, sg721-updatable refuses, factories
+   keep their record) *)
+Lemma mig_step_at_code : forall c a st,
+  c_name st = own_name c -> parse_version (c_version st) = Some CODE -> mig_step c st a = st.
+Proof.
+  intros c [now msg] st Hn Hv. unfold mig_step, migrate. cbn [fst snd].
+  rewrite (code_version_all c), Hn, Hv, String.eqb_refl.
+  change (ver_ltb (3,16,0) CODE) with false. change (ver_eqb CODE (3,16,0)) with true.
+  destruct c; cbn; try reflexivity; destruct msg as [m|]; try reflexivity;
+  match goal with |- context [if ?b then _ else _] => destruct b end; reflexivity.
+Qed.
+
+Lemma mig_fold_at_code : forall c l st,
+  c_name st = own_name c -> parse_version (c_version st) = Some CODE ->
+  fold_left (mig_step c) l st = st.
+Proof.
+  intros c l. induction l as [|a l IH]; intros st Hn Hv; cbn [fold_left]; [reflexivity|].
+  rewrite (mig_step_at_code c a st Hn Hv). apply IH; assumption.
+Qed.
+
+(* a migration is applied once: after one accepted migration of a non-factory contract,
+   no sequence of further attempts changes anything *)
+Theorem migrate_once_then_fixed : forall c now msg st st' p l,
+  kind_of c <> KFactory -> migrate c now msg st = Ok (st', p) ->
+  fold_left (mig_step c) l st' = st'.
+Proof.
+  intros c now msg st st' p l NF M.
+  destruct (post_version_nonfactory c _ _ _ _ _ NF M) as [Hn [Hv _]].
+  apply mig_fold_at_code; assumption.
 Qed.
